@@ -619,3 +619,567 @@ class C03(ProverCheck):
 
 ASSERT_CMP_KINDS = ("lt", "le", "eq", "ne", "gt", "ge")
 E.register(C03())
+
+
+# ---------------------------------------------------------------------------------------
+def _schema_bits(sc):
+    k = sc[0]
+    if k == "bool":
+        return 1
+    if k == "int":
+        return (sc[1] - 1).bit_length()
+    if k == "list":
+        return sum(_schema_bits(x) for x in sc[1])
+    return _schema_bits(sc[1]) * sc[2]
+
+
+class C16(ProverCheck):
+    name = "C16"
+    prop = "C16"
+    budget = {"quick": 400, "thorough": 15000}
+    wire_budget = 600
+    shadow_budget = 8
+    rule = ("(a) to_bits(n)/from_bits and assert_positive(n) with n in 1..bitlength+2 independent of the "
+            "global bitlength on values 0, 1, 2^(n-1), 2^n-1, 2^n, 2^n+1, -1, 2^bitlength+-1: in range => "
+            "round trip equal, exactly n bit wires, trace satisfied; out of range => the honest call raises "
+            "and a prover without the Python checks (ignore_errors + lies on every hint with re-derivation) "
+            "cannot satisfy the circuit. (b) packer schemas of depth <= 3 from PackBool / PackIntMod / "
+            "PackList / PackRepeat with plain and secret leaves: pack then unpack returns the original "
+            "leaves, the number of bits equals bitlen(), out-of-range plain leaves raise ValueError, the "
+            "trace is satisfied and lies on hint wires cannot move an unpacked secret leaf. non-trivial = "
+            "distinct (schema or width, value vector) pairs that reached a verdict")
+
+    def gen_schema(self, rng, depth, budget):
+        u = rng.random()
+        if depth <= 0 or u < 0.35 or budget[0] <= 2:
+            if rng.random() < 0.4:
+                budget[0] -= 1
+                return ["bool"]
+            m = rng.choice([2, 3, 4, 5, 7, 8, 9, 16, 17])
+            budget[0] -= (m - 1).bit_length()
+            return ["int", m]
+        if u < 0.75:
+            return ["list", [self.gen_schema(rng, depth - 1, budget) for _ in range(rng.randrange(1, 4))]]
+        return ["rep", self.gen_schema(rng, depth - 1, budget), rng.randrange(1, 4)]
+
+    def gen_value(self, rng, sc, inputs, expect, oor):
+        k = sc[0]
+        if k in ("bool", "int"):
+            m = 2 if k == "bool" else sc[1]
+            v = rng.randrange(0, m)
+            if oor and rng.random() < 0.3 and k == "int":
+                v = rng.choice([m, m + 1, -1, 1 << (m - 1).bit_length()])
+                oor.append(v)
+            secret = rng.random() < 0.5
+            expect.append(v)
+            if secret:
+                inputs.append({"kind": "priv", "t": "I", "v": v})
+                return {"ref": len(inputs) - 1, "t": "I", "secret": True}
+            return {"k": v, "t": "I"}
+        if k == "list":
+            return [self.gen_value(rng, x, inputs, expect, oor) for x in sc[1]]
+        return [self.gen_value(rng, sc[1], inputs, expect, oor) for _ in range(sc[2])]
+
+    def gen(self, rng, i, tier):
+        cfg = self.cfg(rng)
+        cfg["bitlength"] = rng.choice([2, 3, 4, 6, 8])
+        bl = cfg["bitlength"]
+        if i % 2 == 0:
+            n = rng.randrange(1, bl + 3)
+            kind = rng.choice(["bits", "positive"])
+            A = {"ref": 0, "t": "I"}
+            if kind == "bits":
+                stmt = {"s": "let", "e": {"call": "bits_roundtrip", "args": [A], "n": n, "t": "I"}}
+            else:
+                stmt = {"s": "assert", "kind": "positive", "args": [A], "bits": n}
+            vec = sorted({0, 1, 1 << (n - 1), (1 << n) - 1, 1 << n, (1 << n) + 1, -1, (1 << bl) - 1, 1 << bl,
+                          (1 << bl) + 1, rng.randrange(0, 1 << n)})
+            plan = {"cfg": cfg, "inputs": [{"kind": "priv", "t": "I", "v": 0}], "body": [stmt]}
+            return {"mode": "width", "n": n, "plan": plan, "vectors": [[v] for v in vec],
+                    "seed": rng.randrange(1 << 30)}
+        inputs, expect, oor = [], [], []
+        want_oor = [] if rng.random() < 0.8 else [None]
+        sc = self.gen_schema(rng, rng.choice([0, 1, 2, 3]), [24])
+        if want_oor:
+            want_oor.clear()
+            want_oor.append("on")
+        val = self.gen_value(rng, sc, inputs, expect, want_oor if want_oor else None)
+        plan = {"cfg": cfg, "inputs": inputs, "body": [{"s": "pack", "schema": sc, "value": val}]}
+        return {"mode": "pack", "plan": plan, "expect": expect, "oor": bool(want_oor[1:]),
+                "seed": rng.randrange(1 << 30)}
+
+    def run(self, case):
+        if case["mode"] == "width":
+            return self.run_width(case)
+        return self.run_pack(case)
+
+    def run_width(self, case):
+        plan = case["plan"]
+        n = case["n"]
+        rng = _random.Random(case["seed"])
+        bl = plan["cfg"]["bitlength"]
+        st = plan["body"][0]
+        op = "to_bits" if st["s"] == "let" else "assert_positive"
+        viol, probes, faults, verdicts, ntl = [], {}, {}, [], []
+        events = 0
+
+        def add(oracle, mode, detail):
+            s = {"op": op, "mode": mode}
+            if not any(v["oracle"] == oracle and v["site"] == s for v in viol):
+                viol.append({"property": "C16", "oracle": oracle, "site": s, "detail": detail})
+        for vec in case["vectors"]:
+            v = vec[0]
+            in_range = 0 <= v < (1 << n)
+            tr = PV.run_plan(plan, inputs=vec)
+            events += tr.steps
+            ok = tr.outcome == "completed" and not tr.caught
+            if in_range:
+                if not ok:
+                    add("in_range_rejected", "honest", "value %d is a %d-bit value but %s" % (v, n, tr.outcome))
+                    continue
+                t = PV.Trace(tr)
+                if t.unsat(t.base_assignment()):
+                    add("accepted_but_unsatisfied", "honest", "value %d width %d" % (v, n))
+                nb = sum(1 for k in t.hints if k in t.boolean)
+                if nb != n:
+                    add("wrong_number_of_bits", "honest", "width %d requested, %d boolean wires allocated" % (n, nb))
+                if op == "to_bits":
+                    r = [x for x in t.results if x["name"] == "vI1"]
+                    if r and r[0]["value"] != v % t.p:
+                        add("roundtrip_differs", "honest", "from_bits(to_bits(%d, %d)) = %d" % (v, n, r[0]["value"]))
+                    atk = PV.Attack(t, PV.plan_consts(plan))
+                    for lies, vd, a, rep in atk.search(rng, bl, 300):
+                        add("second_assignment", "wire", "value %d width %d: lies %r move the recomposed value" % (
+                            v, n, lies))
+                        break
+                    faults["lie-wire"] = faults.get("lie-wire", 0) + atk.evals
+                verdicts.append((v, "in", ok))
+                ntl.append(v)
+                continue
+            if ok:
+                add("out_of_range_accepted", "honest", "value %d is not a %d-bit value but the call returned" % (v, n))
+                continue
+            d = PV.run_plan(plan, inputs=vec, nocheck=True)
+            events += d.steps
+            if d.outcome != "completed" or d.caught:
+                probes["nocheck_run_raised"] = probes.get("nocheck_run_raised", 0) + 1
+                continue
+            t = PV.Trace(d)
+            atk = PV.Attack(t, PV.plan_consts(plan))
+            faults["nocheck"] = faults.get("nocheck", 0) + 1
+            if not t.unsat(atk.base):
+                add("width_not_enforced", "honest-hints", "value %d, width %d, bitlength %d: the hints computed "
+                    "with checks off satisfy all %d constraints" % (v, n, bl, len(t.cons)))
+            else:
+                found = PV.search_sat(atk, rng, bl)
+                faults["lie-wire"] = faults.get("lie-wire", 0) + atk.evals + atk.repairs
+                if found is not None:
+                    add("width_not_enforced", "wire", "value %d, width %d, bitlength %d: lies %r satisfy the "
+                        "circuit" % (v, n, bl, found[0]))
+            verdicts.append((v, "out", ok))
+            ntl.append(v)
+        return {"violations": viol, "digest": E.sha((verdicts, [x["detail"] for x in viol])), "nontrivial": None,
+                "nontrivial_list": [E.sha((op, n, bl, v)) for v in ntl], "events": events + faults.get("lie-wire", 0),
+                "faults": faults, "probes": probes, "sigs": [E.sha((op, n, bl))], "outcome": verdicts[:3]}
+
+    def run_pack(self, case):
+        plan = case["plan"]
+        rng = _random.Random(case["seed"])
+        bl = plan["cfg"]["bitlength"]
+        viol, probes, faults = [], {}, {}
+
+        def add(oracle, mode, detail):
+            s = {"op": "pack", "mode": mode}
+            if not any(v["oracle"] == oracle and v["site"] == s for v in viol):
+                viol.append({"property": "C16", "oracle": oracle, "site": s, "detail": detail})
+        tr = PV.run_plan(plan)
+        ok = tr.outcome == "completed"
+        sc = plan["body"][0]["schema"]
+
+        def leaves(v, out):
+            if isinstance(v, list):
+                for x in v:
+                    leaves(x, out)
+            else:
+                out.append(v)
+            return out
+        lv = leaves(plan["body"][0]["value"], [])
+        plain_oor = False
+        secret_oor = False
+
+        def walk(sc_, v):
+            nonlocal plain_oor, secret_oor
+            if sc_[0] == "list":
+                for a, b in zip(sc_[1], v):
+                    walk(a, b)
+            elif sc_[0] == "rep":
+                for b in v:
+                    walk(sc_[1], b)
+            elif sc_[0] == "int":
+                if "k" in v:
+                    if not (0 <= v["k"] < sc_[1]):
+                        plain_oor = True
+                else:
+                    val = plan["inputs"][v["ref"] % len(plan["inputs"])]["v"]
+                    if not (0 <= val < (1 << (sc_[1] - 1).bit_length())):
+                        secret_oor = True
+        walk(sc, plan["body"][0]["value"])
+        nt = None
+        if plain_oor:
+            probes["plain_out_of_range"] = 1
+            if ok or tr.outcome not in ("raised:ValueError", "raised:AssertionError"):
+                add("plain_out_of_range_not_rejected", "honest", "outcome %s" % tr.outcome)
+        elif secret_oor:
+            probes["secret_out_of_range"] = 1
+            if ok:
+                add("out_of_range_accepted", "honest", "secret leaf wider than its field was packed")
+        elif not ok:
+            add("in_range_rejected", "honest", "pack/unpack of in-range leaves: %s %s" % (tr.outcome, tr.outcome_msg))
+        else:
+            info = tr.pack_info.get(1)
+            out = tr.pack_out.get(1)
+            if info["nbits"] != _schema_bits(sc) or info["bitlen"] != _schema_bits(sc):
+                add("wrong_number_of_bits", "honest", "schema needs %d bits, bitlen()=%d, pack gave %d" % (
+                    _schema_bits(sc), info["bitlen"], info["nbits"]))
+            if out != case["expect"]:
+                add("roundtrip_differs", "honest", "packed %r, unpacked %r" % (case["expect"], out))
+            t = PV.Trace(tr)
+            if t.unsat(t.base_assignment()):
+                add("accepted_but_unsatisfied", "honest", "pack/unpack trace not satisfied")
+            elif t.hints:
+                atk = PV.Attack(t, PV.plan_consts(plan))
+                for lies, vd, a, rep in atk.search(rng, bl, self.wire_budget):
+                    add("second_assignment", "wire", "lies %r move unpacked leaf %s" % (lies, vd[1]["name"]))
+                    break
+                faults["lie-wire"] = atk.evals
+            nt = E.sha((sc, case["expect"]))
+        return {"violations": viol, "digest": E.sha((tr.digest_material(), [x["detail"] for x in viol])),
+                "nontrivial": nt, "events": tr.steps + faults.get("lie-wire", 0), "faults": faults, "probes": probes,
+                "sigs": [E.sha(sc)], "outcome": tr.outcome}
+
+    def shrink_candidates(self, case):
+        for c in P.shrink_plan_candidates(case):
+            yield c
+        if case.get("vectors") and len(case["vectors"]) > 1:
+            for i in range(len(case["vectors"])):
+                c = copy.deepcopy(case)
+                c["vectors"] = [case["vectors"][i]]
+                yield c
+
+
+E.register(C16())
+
+
+# ---------------------------------------------------------------------------------------
+# artefact files (C10, C11)
+import contextlib
+import io
+import os
+import shutil
+import tempfile
+
+from . import decoders as D
+
+FILE_MIX = {"let": 10, "assert": 2, "guarded": 1, "ite_call": 0.3, "set_ie": 0, "val": 4, "array": 0.3,
+            "aset": 0.3, "aget": 0.3, "arith": 10, "div": 1, "bits": 0.5, "cmp": 1, "shift": 0.3, "pow": 0.5,
+            "unary": 2, "boolop": 1, "check": 1, "ite": 1, "tobits": 0.3, "tobool": 0.3, "fxp": 1}
+
+
+def prove_in_scratch(tr):
+    """Call the real backend.prove() of the run's world in a private scratch directory and
+    return {filename: bytes}."""
+    d = tempfile.mkdtemp(prefix="prove-")
+    old = os.getcwd()
+    os.chdir(d)
+    out = {}
+    try:
+        buf = io.StringIO()
+        with contextlib.redirect_stdout(buf), contextlib.redirect_stderr(buf):
+            tr.w.backend.prove()
+        for fn in sorted(os.listdir(d)):
+            with open(os.path.join(d, fn), "rb") as f:
+                out[fn] = f.read()
+    finally:
+        os.chdir(old)
+        shutil.rmtree(d, ignore_errors=True)
+    return out
+
+
+def lc_to_wires(lc, npub, p):
+    """Recorder LC (0 one, k>0 public k, k<0 private -k) -> {wire id: coeff mod p}, zeros dropped."""
+    out = {}
+    for k, c in lc.items():
+        c %= p
+        if c:
+            out[k if k >= 0 else npub - k] = c
+    return out
+
+
+def check_snarkjs_files(files, rec):
+    """Yield (oracle, where, detail) problems of circuit.r1cs / witness.wtns against the recorder."""
+    p = W.BN254
+    npub, npriv = len(rec.pub), len(rec.priv)
+    for fn in ("circuit.r1cs", "witness.wtns"):
+        if fn not in files:
+            yield "file_missing", fn, "prove() did not write %s" % fn
+            return
+    try:
+        r = D.decode_r1cs(files["circuit.r1cs"])
+    except D.FormatError as e:
+        yield "file_malformed", e.where, e.what
+        r = None
+    try:
+        wt = D.decode_wtns(files["witness.wtns"])
+    except D.FormatError as e:
+        yield "file_malformed", e.where, e.what
+        wt = None
+    if r is not None:
+        if r["prime"] != p or r["n8"] != 32:
+            yield "file_ne_trace", "r1cs:header", "prime/field size"
+        if r["nwires"] != 1 + npub + npriv:
+            yield "file_ne_trace", "r1cs:header", "nWires %d, trace has 1+%d+%d" % (r["nwires"], npub, npriv)
+        if r["npubout"] + r["npubin"] != npub:
+            yield "file_ne_trace", "r1cs:header", "%d public wires declared, trace has %d" % (
+                r["npubout"] + r["npubin"], npub)
+        if len(r["constraints"]) != len(rec.cons):
+            yield "file_ne_trace", "r1cs:constraints", "%d constraints in file, %d traced" % (
+                len(r["constraints"]), len(rec.cons))
+        else:
+            for i, (dc, tc) in enumerate(zip(r["constraints"], rec.cons)):
+                for part, dl, tl in zip("ABC", dc, tc):
+                    if {w: c for w, c in dl if c} != lc_to_wires(tl, npub, p):
+                        yield "file_ne_trace", "r1cs:constraints", "constraint %d %s differs from the trace" % (i, part)
+                        break
+                else:
+                    continue
+                break
+    if wt is not None:
+        if wt["prime"] != p:
+            yield "file_ne_trace", "wtns:header", "prime"
+        exp = [1] + [v % p for v in rec.pub] + [v % p for v in rec.priv]
+        if wt["values"] != exp:
+            k = next((i for i, (a, b) in enumerate(zip(wt["values"], exp)) if a != b), min(len(exp), len(wt["values"])))
+            yield "file_ne_trace", "wtns:values", "witness differs from the trace at wire %d (%d values vs %d)" % (
+                k, len(wt["values"]), len(exp))
+    if r is not None and wt is not None and len(wt["values"]) == r["nwires"]:
+        vals = wt["values"]
+        for i, dc in enumerate(r["constraints"]):
+            a, b, c = [sum(cf * vals[w] for w, cf in part) % p for part in dc]
+            if (a * b - c) % p:
+                if not rec.cons_flags[i] and rec.con_ok(i):
+                    yield "decoded_unsatisfied", "r1cs+wtns", "decoded witness violates decoded constraint %d" % i
+                break
+
+
+def check_zkif_files(files, rec, p):
+    npub, npriv = len(rec.pub), len(rec.priv)
+    for fn in ("computation.zkif", "circuit.zkif"):
+        if fn not in files:
+            yield "file_missing", fn, "prove() did not write %s" % fn
+            return
+    dec = {}
+    for fn in ("computation.zkif", "circuit.zkif"):
+        try:
+            dec[fn] = D.decode_zkif(files[fn])
+        except D.FormatError as e:
+            yield "file_malformed", fn + ":" + e.where, e.what
+            return
+    types = {fn: sorted(m["type"] for m in dec[fn]) for fn in dec}
+    if types["computation.zkif"] != ["constraints", "header", "witness"]:
+        yield "file_ne_trace", "computation.zkif:messages", "messages %r" % types["computation.zkif"]
+        return
+    if types["circuit.zkif"] != ["constraints", "header"]:
+        oracle = "witness_in_verifier_file" if "witness" in types["circuit.zkif"] else "file_ne_trace"
+        yield oracle, "circuit.zkif:messages", "messages %r" % types["circuit.zkif"]
+        return
+    for fn in dec:
+        by = {m["type"]: m for m in dec[fn]}
+        h = by["header"]
+        inst = h["instance"] or {"ids": [], "values": []}
+        if inst["ids"] != list(range(1, npub + 1)):
+            yield "file_ne_trace", fn + ":header", "instance ids %r, expected 1..%d" % (inst["ids"][:6], npub)
+        elif inst["values"] != [v % p for v in rec.pub]:
+            yield "file_ne_trace", fn + ":header", "instance values differ from the public values of the trace"
+        if h["free_variable_id"] != npub + npriv + 1:
+            yield "file_ne_trace", fn + ":header", "free_variable_id %d, expected %d" % (
+                h["free_variable_id"], npub + npriv + 1)
+        if h["field_maximum"] != p - 1:
+            yield "file_ne_trace", fn + ":header", "field_maximum is not p-1"
+        cs = by["constraints"]["constraints"]
+        if len(cs) != len(rec.cons):
+            yield "file_ne_trace", fn + ":constraints", "%d constraints in file, %d traced" % (len(cs), len(rec.cons))
+        else:
+            bad = None
+            for i, (dc, tc) in enumerate(zip(cs, rec.cons)):
+                for part, dl, tl in zip("ABC", dc, tc):
+                    if any(v >= p for v in dl["values"]):
+                        bad = ("file_malformed", "coefficient of constraint %d %s not canonical" % (i, part))
+                        break
+                    if len(set(dl["ids"])) != len(dl["ids"]):
+                        bad = ("file_malformed", "constraint %d %s lists a variable twice" % (i, part))
+                        break
+                    if {w: c for w, c in zip(dl["ids"], dl["values"]) if c} != lc_to_wires(tl, npub, p):
+                        bad = ("file_ne_trace", "constraint %d %s differs from the trace" % (i, part))
+                        break
+                if bad:
+                    break
+            if bad:
+                yield bad[0], fn + ":constraints", bad[1]
+        if "witness" in by:
+            a = by["witness"]["assigned"] or {"ids": [], "values": []}
+            if a["ids"] != list(range(npub + 1, npub + npriv + 1)):
+                yield "file_ne_trace", fn + ":witness", "witness ids %r..., expected %d..%d" % (
+                    a["ids"][:4], npub + 1, npub + npriv)
+            elif a["values"] != [v % p for v in rec.priv]:
+                yield "file_ne_trace", fn + ":witness", "witness values differ from the private values of the trace"
+            elif any(v >= p for v in a["values"]):
+                yield "file_malformed", fn + ":witness", "value not canonical"
+            else:
+                vals = {0: 1}
+                vals.update(zip(inst["ids"], inst["values"]))
+                vals.update(zip(a["ids"], a["values"]))
+                for i, dc in enumerate(cs):
+                    try:
+                        x, y, z = [sum(c * vals[w] for w, c in zip(pt["ids"], pt["values"])) % p for pt in dc]
+                    except KeyError:
+                        yield "file_malformed", fn + ":constraints", "constraint %d uses an unassigned variable" % i
+                        break
+                    if (x * y - z) % p:
+                        if i < len(rec.cons) and not rec.cons_flags[i] and rec.con_ok(i):
+                            yield "decoded_unsatisfied", fn, "decoded assignment violates decoded constraint %d" % i
+                        break
+
+
+class FileCheck(TraceCheck):
+    props = ()
+    weights = FILE_MIX
+    toggles = ("div", "bits", "shift", "pow", "boolop", "check", "ite", "tobits", "tobool", "guarded", "assert")
+
+    def cfg(self, rng):
+        c = swarm_cfg(rng, self.backends, fxp_p=0.3, bits=(4, 8, 8, 16))
+        c["value_bias"] = rng.choice(["mixed", "field", "field", "tiny"])
+        c["p_try"] = 1.0
+        return c
+
+    def gen(self, rng, i, tier):
+        cfg = self.cfg(rng)
+        w = swarm_weights(rng, self.weights, self.toggles)
+        plan = P.generate(rng, cfg, w)
+        # interleave public and private allocations: more public inputs than the default
+        for inp in plan["inputs"]:
+            if rng.random() < 0.4:
+                inp["kind"] = "pub"
+        g = P.Gen(rng, cfg)
+        alt = []
+        for inp in plan["inputs"]:
+            if inp["kind"] == "pub":
+                alt.append(inp["v"])
+            elif inp["t"] == "I":
+                alt.append(g.small_int())
+            elif inp["t"] == "B":
+                alt.append(1 - inp["v"])
+            else:
+                alt.append(inp["v"] + 1.0)
+        return {"plan": plan, "alt_inputs": alt}
+
+    def files_problems(self, files, rec):
+        raise NotImplementedError
+
+    def run(self, case):
+        tr = T.TraceRun(case["plan"], props=()).run()
+        rec = tr.w.rec
+        viol = []
+        probes = dict(tr.probes)
+        files = prove_in_scratch(tr)
+        p = rec.p
+        for oracle, where, detail in self.files_problems(files, rec):
+            s = {"where": where.split(":")[0] + ":" + where.split(":")[-1] if ":" in where else where,
+                 "backend": case["plan"]["cfg"]["backend"] if len(self.backends) > 1 else None}
+            s = {k: v for k, v in s.items() if v is not None}
+            if not any(v["oracle"] == oracle and v["site"] == s for v in viol):
+                viol.append({"property": self.prop, "oracle": oracle, "site": s, "detail": detail})
+        if any(v % p != v for v in rec.priv + rec.pub):
+            probes["value_outside_0_p"] = 1
+        if any(v < 0 for v in rec.priv + rec.pub):
+            probes["negative_value"] = 1
+        if any(abs(v) >> 256 for v in rec.priv + rec.pub):
+            probes["value_wider_than_256_bits"] = 1
+        if any(not part for c in rec.cons for part in c):
+            probes["empty_linear_combination"] = 1
+        if any(c % p == 0 for con in rec.cons for part in con for c in part.values()):
+            probes["zero_coefficient"] = 1
+        kinds = rec.kinds().replace("c", "")
+        if "wP" in kinds:
+            probes["public_after_private"] = 1
+        extra = self.extra(case, tr, files, viol, probes)
+        res = self.result(tr, case, viol)
+        res["probes"] = probes
+        res["events"] += len(files) + extra
+        res["nontrivial"] = P.plan_digest(case["plan"]) if rec.cons and files else None
+        res["digest"] = E.sha((res["digest"], sorted((k, E.sha(v.hex())) for k, v in files.items())))
+        return res
+
+    def extra(self, case, tr, files, viol, probes):
+        return 0
+
+
+class C10(FileCheck):
+    name = "C10"
+    prop = "C10"
+    backends = ("snarkjs",)
+    budget = {"quick": 1500, "thorough": 60000}
+    rule = ("seeded plans with interleaved public/private allocations and outputs, values negative, >= p and "
+            "wider than 256 bits, zero coefficients and empty combinations; the real snarkjs prove() writes "
+            "circuit.r1cs / witness.wtns into a scratch directory; an independent decoder of the iden3 "
+            "formats checks structure (magic, version, section table, sizes, canonical elements, wire ids) "
+            "and the decoded content is compared with the recorder's event log under the numbering one, "
+            "publics, privates; decoded witness must satisfy decoded constraints. non-trivial = distinct "
+            "plans with at least one constraint whose files were decoded")
+
+    def files_problems(self, files, rec):
+        return check_snarkjs_files(files, rec)
+
+
+class C11(FileCheck):
+    name = "C11"
+    prop = "C11"
+    backends = ("zkinterface", "zkifbellman", "zkifbulletproofs")
+    budget = {"quick": 1200, "thorough": 45000}
+    components = REAL_TRACE + "; the FlatBuffers bytes come from the stub builder, so what is checked is the " \
+        "backend's use of the builder API and the message contents, not the real library's byte layout"
+    rule = ("as C10 for the three zkinterface field configurations, with the stub flatbuffers builder and an "
+            "independent bounds-checked FlatBuffers reader written from zkinterface.fbs: message sequence and "
+            "types per file, header (instance ids 1..n with values, free_variable_id, field_maximum = p-1), "
+            "constraints equal to the trace with canonical coefficients, witness ids n+1..n+m with values, "
+            "decoded assignment satisfies decoded constraints; circuit.zkif has no witness message and is "
+            "byte-identical in a twin run on other private values. non-trivial = distinct plans with at "
+            "least one constraint whose files were decoded")
+
+    def files_problems(self, files, rec):
+        return check_zkif_files(files, rec, rec.p)
+
+    def extra(self, case, tr, files, viol, probes):
+        if tr.outcome != "completed" or tr.caught or "circuit.zkif" not in files:
+            return 0
+        alt = list(case.get("alt_inputs", []))
+        alt += [i["v"] for i in case["plan"]["inputs"]][len(alt):]
+        tr2 = T.TraceRun(case["plan"], inputs=alt, props=()).run()
+        if tr2.outcome != "completed" or tr2.caught or tr2.w.rec.pub != tr.w.rec.pub:
+            probes["twin_discarded"] = 1
+            return tr2.steps
+        if tr2.w.rec.canon_cons() != tr.w.rec.canon_cons():
+            probes["twin_discarded_structure_differs"] = 1
+            return tr2.steps
+        files2 = prove_in_scratch(tr2)
+        probes["twin_compared"] = 1
+        if tr2.w.rec.priv != tr.w.rec.priv:
+            probes["twin_compared_with_different_private_values"] = 1
+        if files2.get("circuit.zkif") != files["circuit.zkif"]:
+            viol.append({"property": "C11", "oracle": "verifier_file_depends_on_witness",
+                         "site": {"where": "circuit.zkif"},
+                         "detail": "circuit.zkif differs between two runs with equal public values"})
+        return tr2.steps + 2
+
+
+E.register(C10())
+E.register(C11())
